@@ -319,6 +319,22 @@ def e2e_argv(inp, outp, cfg, filterstr):
     return argv
 
 
+def file_form(events):
+    """the events as they are written into the input file: slices marked "_be" become adjacent B/E pairs"""
+    out = []
+    for e in events:
+        if isinstance(e, dict) and e.get("_be") and e.get("ph") == "X":
+            b = {k: v for k, v in e.items() if k not in ("_be", "dur")}
+            b["ph"] = "B"
+            en = dict(b, ph="E", ts=e["ts"] + e["dur"])
+            out += [b, en]
+        elif isinstance(e, dict):
+            out.append({k: v for k, v in e.items() if k != "_be"})
+        else:
+            out.append(e)
+    return out
+
+
 def drive_e2e(work, events, cfg, filterstr, name="c17_e2e.json"):
     """write the file, run the REAL Acelyzer in process; returns (uids of exported X events in output order,
     number of input metadata markers found in the output) or enc.Err"""
@@ -327,7 +343,7 @@ def drive_e2e(work, events, cfg, filterstr, name="c17_e2e.json"):
     inp = os.path.join(work, name)
     outp = os.path.join(work, "out_" + name)
     with open(inp, "w") as f:
-        json.dump(events, f)
+        json.dump(file_form(events), f)
     if os.path.exists(outp):
         os.remove(outp)
     with contextlib.redirect_stdout(_quiet), contextlib.redirect_stderr(_quiet):
@@ -815,9 +831,12 @@ def gen_e2e_events(r):
     metadata interleaved; overlap depth per tid stays small"""
     n = r.choice([3, 4, 5, 6, 8, 10, 12])
     evs, t = [], float(r.randint(0, 5))
+    # a third of the files are written as adjacent B/E pairs (the form of the repository's own FLEX samples) with
+    # durations off the nanosecond grid: ingestion must hand the limiter exactly E.ts - B.ts
+    be_form = r.random() < 0.33
     for k in range(n):
         t += float(r.randint(0, 4)) + (r.randint(0, 1023) * G if r.random() < 0.1 else 0.0)
-        dur = float(r.randint(1, 6))
+        dur = float(r.randint(1, 6)) + (r.randint(1, 1023) * G if be_form else 0.0)
         # (Prep slices are consumed by the prep_queue counter stage: a documented removal, not this property's)
         e = {"ph": "X", "name": r.choice(E2E_NAMES), "pid": 0, "tid": k % 4, "ts": t, "dur": dur}
         a = {"uid": k, "Type": r.choice(E2E_TYPES)}
@@ -831,6 +850,8 @@ def gen_e2e_events(r):
             e["attr"] = a
         else:
             e["args"] = a
+        if be_form:
+            e["_be"] = True
         evs.append(e)
     # local shuffles: arrival order is file order, not time order
     for _ in range(r.randint(0, 3)):
